@@ -323,7 +323,9 @@ func (s *ManagedServer) LoadFromFile() error {
 
 	s.mu.Lock()
 	// Skip if the file content is unchanged.
-	if content == s.cachedContent {
+	// Nothing has been loaded yet when the maps are nil: an empty file must not
+	// be mistaken for unchanged content, or the server would run without its maps.
+	if s.cachedCredMap != nil && content == s.cachedContent {
 		s.mu.Unlock()
 		return nil
 	}
